@@ -105,6 +105,20 @@ func c01Paths(r *rand.Rand, n int) []c01Path {
 	add("nul", "/../root-other/x.txt\x00")
 	add("nul", "/dir\x00/../../root-other/x.txt")
 	add("nul", "\x00/../root-other")
+	// NUL glued to dot-dot elements (names like "..\x00" are ordinary names for a lexical cleaner)
+	for _, dd := range []string{"..\x00", "\x00..", ".\x00.", "..\x00\x00", "\x00.\x00."} {
+		for _, t := range []string{"root-other/x.txt", "root-other", "root2/dir/a.txt", "secret.txt", "rootx/PS3ISO/x.iso", "root-other/new.bin"} {
+			add("nul-dotdot", "/"+dd+"/"+t)
+			add("nul-dotdot", dd+"/"+t)
+			add("nul-dotdot", "/dir/"+dd+"/"+dd+"/"+t)
+		}
+	}
+	// absolute host paths: directories and files that exist on the host but not under the root
+	for _, hp := range []string{"/etc", "/var/tmp", "/usr/lib", "/proc", "/etc/hostname", "/usr", "/bin", "/root", "/dev/null"} {
+		add("host-path", hp)
+		add("host-path", hp+"/")
+		add("host-path", "/."+hp)
+	}
 	add("backslash", "\\..\\root-other\\x.txt")
 	add("backslash", "/..\\root-other/x.txt")
 	add("nonutf8", "/../root-other/\xff\xfe")
@@ -118,7 +132,7 @@ func c01Paths(r *rand.Rand, n int) []c01Path {
 	add("key-lookup", "/PS3ISO/x.iso")
 	add("key-lookup", "/ps3iso/../PS3ISO/x.iso")
 	// grammar
-	segs := []string{"..", ".", "", "dir", "sub", "file.bin", "x.txt", "a.txt", "root-other", "root2", "rootx", "other", "root", "roo", "secret.txt", "***DVD***", "***PS3***", "PS3ISO", "REDKEY", "x.iso", "x.dkey", "game", "\x00", strings.Repeat("L", 255), "\xff\xfe", "a\\b", "..\\..", "new", "emptydir"}
+	segs := []string{"..\x00", "\x00..", "etc", "var", "tmp", "..", ".", "", "dir", "sub", "file.bin", "x.txt", "a.txt", "root-other", "root2", "rootx", "other", "root", "roo", "secret.txt", "***DVD***", "***PS3***", "PS3ISO", "REDKEY", "x.iso", "x.dkey", "game", "\x00", strings.Repeat("L", 255), "\xff\xfe", "a\\b", "..\\..", "new", "emptydir"}
 	for i := 0; i < n; i++ {
 		k := 1 + r.Intn(7)
 		var b strings.Builder
@@ -174,6 +188,9 @@ func C01(e *Env) {
 	root := c01Sentinel(base)
 	rng := e.Rng(1)
 	paths := c01Paths(rng, e.Pick(600, 20000))
+	for _, hp := range []string{base, filepath.Join(base, "deep"), filepath.Join(base, "deep", "other"), filepath.Join(base, "deep", "root-other", "dir"), filepath.Join(base, "deep", "secret.txt")} {
+		paths = append(paths, c01Path{[]byte(hp), "host-path"}, c01Path{[]byte(hp + "/new.bin"), "host-path"})
+	}
 	sentinelBefore := model.Snapshot(filepath.Join(base, "deep"))
 	outerBefore, _ := os.ReadFile(filepath.Join(base, "outer.txt"))
 	// ---------------------------------------------------------------- T-lib
